@@ -39,6 +39,8 @@ import (
 
 	"github.com/go-jose/go-jose/v4"
 
+	"github.com/dadrus/heimdall/internal/cache"
+	"github.com/dadrus/heimdall/internal/cache/memory"
 	"github.com/dadrus/heimdall/internal/handler/requestcontext"
 	"github.com/dadrus/heimdall/internal/heimdall"
 	"github.com/dadrus/heimdall/internal/rules/mechanisms/oauth2"
@@ -65,6 +67,7 @@ type c05Env struct {
 	mats       []*c05Mat
 	srv        *httptest.Server
 	bodies     sync.Map // path -> []byte
+	modes      sync.Map // path -> RStatus | RGarbage (overrides the body)
 	down       string
 	trustStore string
 }
@@ -155,10 +158,12 @@ func c05NewEnv(t *testing.T) *c05Env {
 	must(os.WriteFile(env.trustStore, pem.EncodeToMemory(&pem.Block{Type: "CERTIFICATE", Bytes: ca.Certificate.Raw}), 0o600))
 
 	env.srv = httptest.NewServer(http.HandlerFunc(func(w http.ResponseWriter, r *http.Request) {
+		mode, _ := env.modes.Load(r.URL.Path)
+
 		switch {
-		case strings.HasPrefix(r.URL.Path, "/status/"):
+		case strings.HasPrefix(r.URL.Path, "/status/") || mode == "RStatus":
 			w.WriteHeader(http.StatusInternalServerError)
-		case strings.HasPrefix(r.URL.Path, "/garbage/"):
+		case strings.HasPrefix(r.URL.Path, "/garbage/") || mode == "RGarbage":
 			w.Header().Set("Content-Type", "application/json")
 			w.Write([]byte("<<< not json >>>"))
 		default:
@@ -2046,5 +2051,522 @@ func TestVerifC05(t *testing.T) {
 
 	for i := 0; i < n; i++ {
 		emit("generated", env.gen(root.Fork(uint64(i))))
+	}
+}
+
+// =====================================================================================================
+// second stream: histories of 2-4 requests against ONE authenticator with its JWK cache on a real memory
+// cache; jwks_endpoint url templated with the token's (unverified) issuer, several trusted issuers whose
+// key sets share kids, key sets rotating between the requests
+// =====================================================================================================
+
+type c05Pub struct {
+	Remote string   `json:"remote"`
+	Keys   []c05Key `json:"keys"`
+}
+
+type c05HStep struct {
+	Rule      *c05Exp           `json:"rule,omitempty"`
+	RuleCache string            `json:"rule_cache,omitempty"` // rule-level cache_ttl: "" (inherit) 0s 1m
+	Env       map[string]c05Pub `json:"env"`                  // what is published where when the request is made (url id -> ...)
+	Tenant    string            `json:"tenant"`               // the token's iss
+	How       string            `json:"how"`                  // own cross previous unpublished
+	Tok       *c05Token         `json:"tok"`
+	CacheOn   bool              `json:"cache_on"`
+	Obs       c05Obs            `json:"-"`
+}
+
+type c05Hist struct {
+	Proto     c05Exp     `json:"proto"`
+	CacheTTL  string     `json:"cache_ttl"` // default 5m 0s
+	Templated bool       `json:"templated"`
+	IDFrom    string     `json:"id_from"`
+	Steps     []c05HStep `json:"steps"`
+}
+
+var c05Tenants = []string{"tenant-a", "tenant-b", "tenant-c"} //nolint:gochecknoglobals
+
+// materials by kid family, so that tenants sharing a kid declare the same algorithm for different keys
+var c05KidFamilies = map[string]struct { //nolint:gochecknoglobals
+	alg  string
+	mats []int
+}{"k1": {"ES256", []int{3, 4}}, "k2": {"PS256", []int{1, 2}}, "k3": {"ES384", []int{5}}}
+
+func c05CopyEnv(env map[string]c05Pub) map[string]c05Pub {
+	out := make(map[string]c05Pub, len(env))
+	for k, v := range env {
+		out[k] = c05Pub{Remote: v.Remote, Keys: append([]c05Key{}, v.Keys...)}
+	}
+
+	return out
+}
+
+func (e *c05Env) genHist(r *vf.Rand) c05Hist {
+	h := c05Hist{
+		Proto:     c05Exp{Issuers: []string{"tenant-a", "tenant-b"}},
+		CacheTTL:  vf.Pick(r, []string{"default", "default", "default", "5m", "0s"}),
+		Templated: r.Chance(85),
+		IDFrom:    "",
+	}
+
+	if r.Chance(60) {
+		h.Proto.Issuers = append(h.Proto.Issuers, "tenant-c")
+	}
+
+	if r.Chance(15) {
+		h.Proto.LeewayMS = vf.Pick(r, []int64{5000, 1500})
+	}
+
+	// initial publication
+	env := map[string]c05Pub{}
+	ids := c05Tenants
+
+	if !h.Templated {
+		ids = []string{""}
+	}
+
+	for ti, id := range ids {
+		var keys []c05Key
+
+		for _, kid := range []string{"k1", "k2", "k3"} {
+			fam := c05KidFamilies[kid]
+			if !r.Chance(c05If(kid == "k1", 90, 45)) {
+				continue
+			}
+
+			mat := fam.mats[(ti+r.Intn(3)/2)%len(fam.mats)] // mostly a different key per tenant, sometimes the same
+			keys = append(keys, c05Key{Kid: kid, Alg: fam.alg, Mat: mat, Cert: "none"})
+		}
+
+		if r.Chance(8) && len(keys) > 0 {
+			keys = append(keys, c05Key{Kid: keys[0].Kid, Alg: keys[0].Alg, Mat: 6, Cert: "none"}) // duplicate kid
+		}
+
+		env[id] = c05Pub{Remote: "RUp", Keys: keys}
+	}
+
+	prev := map[string]int{} // tenant/kid -> material published before the last rotation
+	n := r.Range(2, 4)
+
+	for i := 0; i < n; i++ {
+		st := c05HStep{}
+
+		// the world changes between the requests
+		if i > 0 && r.Chance(25) {
+			id := vf.Pick(r, ids)
+			pub := env[id]
+
+			switch y := r.Intn(100); {
+			case y < 70 && len(pub.Keys) > 0: // rotate one key under its kid
+				ki := r.Intn(len(pub.Keys))
+				fam := c05KidFamilies[pub.Keys[ki].Kid]
+				prev[id+"/"+pub.Keys[ki].Kid] = pub.Keys[ki].Mat
+				next := fam.mats[r.Intn(len(fam.mats))]
+
+				if next == pub.Keys[ki].Mat {
+					next = 6
+					pub.Keys[ki].Alg = "ES512"
+				} else {
+					pub.Keys[ki].Alg = fam.alg
+				}
+
+				pub.Keys[ki].Mat = next
+			case y < 85:
+				pub.Remote = vf.Pick(r, []string{"RStatus", "RGarbage"})
+			default:
+				pub.Remote = "RUp"
+			}
+
+			env[id] = pub
+		}
+
+		st.Env = c05CopyEnv(env)
+
+		if r.Chance(25) {
+			st.RuleCache = vf.Pick(r, []string{"0s", "1m", ""})
+			if r.Chance(40) {
+				st.Rule = &c05Exp{Algs: vf.Pick(r, [][]string{{"ES256"}, {"PS256", "ES256", "ES384"}})}
+			} else {
+				st.Rule = &c05Exp{}
+			}
+		}
+
+		ttl := h.CacheTTL
+		if st.RuleCache != "" {
+			ttl = st.RuleCache
+		}
+
+		st.CacheOn = ttl != "0s"
+
+		// the token
+		st.Tenant = vf.Pick(r, c05Tenants[:2+r.Intn(2)])
+		if r.Chance(4) {
+			st.Tenant = "tenant-z"
+		}
+
+		id := c05If(h.Templated, st.Tenant, "")
+		pub := env[id]
+		tok := &c05Token{
+			Aud: c05Strs{Form: "absent"}, Scp: c05Strs{Form: "absent"}, Scope: c05Strs{Form: "absent"},
+			Exp: c05Date{Kind: "rel", V: int64(r.Range(300, 3600))}, Nbf: c05Date{Kind: "absent"}, Iat: c05Date{Kind: "absent"},
+			Fields: []c05Field{{K: "sub", V: vf.Pick(r, c05Subs)}}, Payload: "object", Mutation: "none", Flip: r.Intn(1 << 20),
+		}
+		iss := st.Tenant
+		tok.Iss = &iss
+
+		if r.Chance(7) {
+			tok.Exp = c05Date{Kind: "rel", V: -int64(r.Range(100, 900))}
+		}
+
+		kid := vf.Pick(r, []string{"k1", "k1", "k2", "k3"})
+		if len(pub.Keys) > 0 && r.Chance(80) {
+			kid = vf.Pick(r, pub.Keys).Kid
+		}
+
+		fam := c05KidFamilies[kid]
+		tok.Kid, tok.SignAlg = kid, fam.alg
+		st.How = "unpublished"
+		tok.SignMat = fam.mats[0]
+
+		for _, k := range pub.Keys {
+			if k.Kid == kid {
+				tok.SignMat, tok.SignAlg, st.How = k.Mat, k.Alg, "own"
+			}
+		}
+
+		switch y := r.Intn(100); {
+		case y < 50:
+		case y < 82: // the key another tenant publishes under the same kid
+			for _, other := range c05Tenants {
+				if other == st.Tenant {
+					continue
+				}
+
+				for _, k := range env[c05If(h.Templated, other, "")].Keys {
+					if k.Kid == kid && k.Mat != tok.SignMat && c05In(e.mat(k.Mat).Algs, fam.alg) {
+						tok.SignMat, tok.SignAlg, st.How = k.Mat, fam.alg, "cross"
+					}
+				}
+			}
+		case y < 94: // the key that was rotated out
+			if m, ok := prev[id+"/"+kid]; ok && c05In(e.mat(m).Algs, fam.alg) {
+				tok.SignMat, tok.SignAlg, st.How = m, fam.alg, "previous"
+			}
+		default:
+			tok.SignMat, tok.SignAlg, st.How = 7, "EdDSA", "unpublished"
+		}
+
+		if !c05In(e.mat(tok.SignMat).Algs, tok.SignAlg) {
+			tok.SignAlg = e.mat(tok.SignMat).Algs[0]
+		}
+
+		if r.Chance(18) {
+			tok.Kid = ""
+		}
+
+		if r.Chance(7) {
+			tok.Mutation = vf.Pick(r, []string{"sig-flip", "payload-edit"})
+		}
+
+		st.Tok = tok
+		h.Steps = append(h.Steps, st)
+	}
+
+	return h
+}
+
+func c05HistCorpus() []c05Hist {
+	iss := func(s string) *string { return &s }
+	tok := func(tenant, kid string, mat int) *c05Token {
+		return &c05Token{
+			Kid: kid, SignMat: mat, SignAlg: "ES256", Iss: iss(tenant), Aud: c05Strs{Form: "absent"}, Scp: c05Strs{Form: "absent"},
+			Scope: c05Strs{Form: "absent"}, Exp: c05Date{Kind: "rel", V: 600}, Nbf: c05Date{Kind: "absent"},
+			Iat: c05Date{Kind: "absent"}, Fields: []c05Field{{K: "sub", V: "alice"}}, Payload: "object", Mutation: "none",
+		}
+	}
+	env := map[string]c05Pub{
+		"tenant-a": {Remote: "RUp", Keys: []c05Key{{Kid: "k1", Alg: "ES256", Mat: 3, Cert: "none"}}},
+		"tenant-b": {Remote: "RUp", Keys: []c05Key{{Kid: "k1", Alg: "ES256", Mat: 4, Cert: "none"}}},
+	}
+	rotated := c05CopyEnv(env)
+	rotated["tenant-a"] = c05Pub{Remote: "RUp", Keys: []c05Key{{Kid: "k1", Alg: "ES256", Mat: 4, Cert: "none"}}}
+	step := func(env map[string]c05Pub, tenant, how string, t *c05Token) c05HStep {
+		return c05HStep{Env: c05CopyEnv(env), Tenant: tenant, How: how, Tok: t, CacheOn: true}
+	}
+	proto := c05Exp{Issuers: []string{"tenant-a", "tenant-b"}}
+
+	return []c05Hist{
+		// the attack of seeded/C05-1: A's key is cached, then a token of B signed with A's key under the same kid
+		{Proto: proto, CacheTTL: "default", Templated: true, Steps: []c05HStep{
+			step(env, "tenant-a", "own", tok("tenant-a", "k1", 3)),
+			step(env, "tenant-b", "cross", tok("tenant-b", "k1", 3)),
+			step(env, "tenant-b", "own", tok("tenant-b", "k1", 4)),
+		}},
+		// rotation: the cached key stays in use, the new one is not yet known
+		{Proto: proto, CacheTTL: "default", Templated: true, Steps: []c05HStep{
+			step(env, "tenant-a", "own", tok("tenant-a", "k1", 3)),
+			step(rotated, "tenant-a", "previous", tok("tenant-a", "k1", 3)),
+			step(rotated, "tenant-a", "own", tok("tenant-a", "k1", 4)),
+			step(rotated, "tenant-a", "own", tok("tenant-a", "", 4)),
+		}},
+		// the same with the cache off
+		{Proto: proto, CacheTTL: "0s", Templated: true, Steps: []c05HStep{
+			{Env: c05CopyEnv(env), Tenant: "tenant-a", How: "own", Tok: tok("tenant-a", "k1", 3)},
+			{Env: c05CopyEnv(rotated), Tenant: "tenant-a", How: "previous", Tok: tok("tenant-a", "k1", 3)},
+			{Env: c05CopyEnv(rotated), Tenant: "tenant-a", How: "own", Tok: tok("tenant-a", "k1", 4)},
+		}},
+	}
+}
+
+func (e *c05Env) runHist(hid int, h *c05Hist) {
+	conf := map[string]any{
+		"assertions":  c05ExpConf(h.Proto),
+		"trust_store": e.trustStore,
+	}
+
+	base := fmt.Sprintf("%s/t/%d", e.srv.URL, hid)
+	pathOf := func(id string) string {
+		if h.Templated {
+			return fmt.Sprintf("/t/%d/%s/jwks", hid, id)
+		}
+
+		return fmt.Sprintf("/t/%d/jwks", hid)
+	}
+
+	if h.Templated {
+		conf["jwks_endpoint"] = map[string]any{"url": base + "/{{ .TokenIssuer }}/jwks"}
+	} else {
+		conf["jwks_endpoint"] = map[string]any{"url": base + "/jwks"}
+	}
+
+	if h.CacheTTL != "default" {
+		conf["cache_ttl"] = h.CacheTTL
+	}
+
+	proto, err := CreatePrototype(nil, fmt.Sprintf("jwth%d", hid), AuthenticatorJwt, conf)
+	if err != nil {
+		for i := range h.Steps {
+			h.Steps[i].Obs = c05Obs{Setup: "prototype: " + err.Error()}
+		}
+
+		return
+	}
+
+	cch, _ := memory.NewCache(nil, nil, nil)
+
+	var published []string
+
+	for i := range h.Steps {
+		st := &h.Steps[i]
+
+		// publish the world of this request
+		for _, p := range published {
+			e.bodies.Delete(p)
+			e.modes.Delete(p)
+		}
+
+		published = published[:0]
+
+		for id, pub := range st.Env {
+			p := pathOf(id)
+			e.bodies.Store(p, e.jwks(pub.Keys))
+
+			if pub.Remote != "RUp" {
+				e.modes.Store(p, pub.Remote)
+			}
+
+			published = append(published, p)
+		}
+
+		auth := proto
+
+		if st.Rule != nil {
+			rc := map[string]any{"assertions": c05ExpConf(*st.Rule)}
+			if st.RuleCache != "" {
+				rc["cache_ttl"] = st.RuleCache
+			}
+
+			if auth, err = proto.WithConfig(rc); err != nil {
+				st.Obs = c05Obs{Setup: "with_config: " + err.Error()}
+
+				continue
+			}
+		}
+
+		pseudo := &c05Case{Keys: st.Env[c05If(h.Templated, st.Tenant, "")].Keys, Cred: "token", Tok: st.Tok}
+
+		for attempt := 0; ; attempt++ {
+			now := time.Now().Unix()
+			raw := e.serialize(pseudo, now)
+			req := httptest.NewRequest(http.MethodGet, "http://heimdall.local/resource", nil)
+			req.Header.Set("Authorization", "Bearer "+raw)
+			req = req.WithContext(cache.WithContext(req.Context(), cch))
+
+			// a repeated attempt must start from the cache content the first one found: keep a copy of nothing —
+			// repetition only happens when the second changed, and the entries are the same either way
+			st.Obs = e.execute(auth, req, raw)
+			st.Obs.Now = now
+
+			if time.Now().Unix() == now || attempt > 20 {
+				break
+			}
+		}
+	}
+
+	for _, p := range published {
+		e.bodies.Delete(p)
+		e.modes.Delete(p)
+	}
+}
+
+func c05CoqHist(h c05Hist) string {
+	steps := make([]string, 0, len(h.Steps))
+
+	for _, st := range h.Steps {
+		rule := "None"
+		if st.Rule != nil {
+			rule = "(Some " + c05CoqExp(*st.Rule) + ")"
+		}
+
+		cf := vf.CoqApp("cfg", c05CoqExp(h.Proto), rule, `""`, "true", vf.CoqStr(c05If(h.IDFrom == "", "sub", h.IDFrom)), "RUp")
+
+		ids := make([]string, 0, len(st.Env))
+		for id := range st.Env {
+			ids = append(ids, id)
+		}
+
+		sortStrings(ids)
+
+		env := make([]string, 0, len(ids))
+		for _, id := range ids {
+			pub := st.Env[id]
+			env = append(env, vf.CoqPair(vf.CoqStr(id), vf.CoqPair(pub.Remote, vf.CoqListOf(pub.Keys, c05CoqKey))))
+		}
+
+		pseudo := c05Case{Cred: "token", Tok: st.Tok}
+
+		var obs string
+
+		switch {
+		case st.Obs.Setup != "":
+			obs = "(OError KOther)"
+		case st.Obs.Err != "":
+			obs = "(OError " + st.Obs.Err + ")"
+		default:
+			obs = "(OSubject " + vf.CoqStr(st.Obs.Sub) + ")"
+		}
+
+		steps = append(steps, vf.CoqApp("hs", cf, vf.CoqBool(st.CacheOn), vf.CoqBool(h.Templated), vf.CoqList(env),
+			vf.CoqZ(st.Obs.Now), c05CoqCred(pseudo), obs, vf.CoqBool(st.Obs.AttrsOK)))
+	}
+
+	return "(hc " + vf.CoqList(steps) + ")"
+}
+
+func sortStrings(xs []string) {
+	for i := 1; i < len(xs); i++ {
+		for j := i; j > 0 && xs[j] < xs[j-1]; j-- {
+			xs[j], xs[j-1] = xs[j-1], xs[j]
+		}
+	}
+}
+
+type c05HObs struct {
+	Steps []c05Obs `json:"steps"`
+	Sites []string `json:"sites"`
+}
+
+func c05HistTags(h c05Hist) ([]string, bool) {
+	tags := []string{fmt.Sprintf("steps:%d", len(h.Steps)), "cache:" + h.CacheTTL, "templated:" + c05If(h.Templated, "yes", "no")}
+	nontrivial := false
+	seen := map[string]bool{} // url/kid for which a key must be cached by now
+
+	for i, st := range h.Steps {
+		tags = append(tags, "how:"+st.How, "site:"+st.Obs.Site, "out:"+c05If(st.Obs.Err == "", "accepted", st.Obs.Err))
+
+		id := c05If(h.Templated, st.Tenant, "") + "/" + st.Tok.Kid
+		hit := st.CacheOn && st.Tok.Kid != "" && seen[id]
+
+		if hit {
+			tags = append(tags, "cache:lookup-after-fill")
+			nontrivial = true
+		}
+
+		if st.CacheOn && st.Tok.Kid != "" && st.Obs.Site != "getKey-unique" && st.Obs.Site != "jwks-status" &&
+			st.Obs.Site != "jwks-decode" && st.Obs.Site != "jwks-comm" {
+			seen[id] = true
+		}
+
+		if st.How == "cross" && st.Tok.Kid != "" && st.CacheOn {
+			for k := range seen {
+				if strings.HasSuffix(k, "/"+st.Tok.Kid) && k != id {
+					tags = append(tags, "attack:cross-tenant-kid-with-other-tenants-key-cached")
+
+					break
+				}
+			}
+		}
+
+		if i > 0 && !reflect.DeepEqual(h.Steps[i-1].Env, st.Env) {
+			tags = append(tags, "world:changed")
+		}
+
+		if st.Rule != nil {
+			tags = append(tags, "rule-level:yes")
+		}
+	}
+
+	return tags, nontrivial
+}
+
+func TestVerifC05Cache(t *testing.T) {
+	w := vf.NewWriter()
+	defer w.Close()
+
+	env := c05NewEnv(t)
+	defer env.srv.Close()
+
+	root := vf.NewRand(vf.Seed() + 0x5eed)
+	n := vf.N(300)
+	idx := 0
+
+	emit := func(stream string, h c05Hist) {
+		if vf.Want(idx) {
+			env.runHist(idx, &h)
+
+			o := c05HObs{}
+			for _, st := range h.Steps {
+				if st.Obs.Setup != "" {
+					t.Logf("history %d: setup failed: %s", idx, st.Obs.Setup)
+				}
+
+				o.Steps = append(o.Steps, st.Obs)
+				o.Sites = append(o.Sites, st.Obs.Site)
+			}
+
+			tags, nontrivial := c05HistTags(h)
+			key := h
+
+			key.Steps = append([]c05HStep{}, h.Steps...)
+			for i := range key.Steps {
+				tk := *key.Steps[i].Tok
+				tk.Exp.Value, tk.Parses, tk.PObj, tk.SigMats = 0, false, false, nil
+				key.Steps[i].Tok = &tk
+			}
+
+			w.Put(vf.Obs{
+				I: idx, Stream: stream, In: h, Out: o, Coq: c05CoqHist(h), Nontrivial: nontrivial, Tags: tags, Key: vf.KeyOf(key),
+			})
+		}
+
+		idx++
+	}
+
+	for _, h := range c05HistCorpus() {
+		emit("corpus", h)
+	}
+
+	for i := 0; i < n; i++ {
+		emit("generated", env.genHist(root.Fork(uint64(i))))
 	}
 }
